@@ -156,6 +156,10 @@ def gen_plan(seed, tier):
       steps.append({"op": "advance", "dt": r.pick([0.5, 2, 5, 11])})
     if r.chance(0.5):
       steps.append({"op": "advance", "dt": r.pick([0.2, 1, 3, 6])})
+  rhf = Rng(mix(seed, "halfreset"))
+  if not dense and rhf.chance(0.2):
+    steps.insert(rhf.randint(0, len(steps)),
+                 {"op": "reset", "sw": rhf.pick(dpids), "half": True})
   rsw = Rng(mix(seed, "swap"))
   if not dense and rsw.chance(0.3):
     # (late in the history, so that the tree has settled on what to block)
@@ -427,6 +431,25 @@ def _drive(sim, plan, known, hit):
           present[(d, pno)] = True
           sim.probes["port_readded"] += 1
         recompute()
+    elif op == "reset" and st.get("half"):
+      # the switch loses its control connection and reconnects; the
+      # controller's end of the old one stays open (it was never told) and
+      # is torn down only later: ConnectionDown for a connection that has
+      # been superseded
+      ns = net.switches[st["sw"]]
+      c = ns.sw._connection
+      sock = c.io_worker.socket if c is not None else None
+      if sock is not None and not sock.closed and sock.peer is not None:
+        old = sock.peer
+        sock.shut_wr = True       # (nothing of the teardown reaches the peer)
+        sock.inject_reset()
+        sim.drain()
+        sim.advance(6.0)
+        sim.drain()
+        if not old.closed:
+          old.inject_reset()
+          sim.probes["stale_connection_closed_after_reconnect"] += 1
+          sim.probes["control_reset"] += 1
     elif op == "reset" and st.get("mid_probe"):
       def fire(dpid, port, raw, target=st["sw"]):
         if dpid != target or raw[12:14] != b"\x88\xcc":
